@@ -15,6 +15,7 @@ import os
 import pickle
 import sys
 import threading
+import time
 
 HERE = os.path.dirname(os.path.abspath(__file__))
 sys.path.insert(0, HERE)
@@ -126,9 +127,17 @@ class PoolWrapper:
         it = self.real.imap_unordered(func, iterable, *a, **kw)
         describe = self.describe
 
+        delay = float(os.environ.get('VERIF_MAIN_DELAY_MS', '0')) / 1000.0
+
         def gen():
             for r in it:
-                emit('recv', **describe(r))
+                d = describe(r)
+                emit('recv', **d)
+                if delay and d.get('ok'):
+                    # schedule perturbation (a pure delay of the main loop
+                    # between receiving a success and acting on it): the
+                    # workers get time to finish further checks meanwhile
+                    time.sleep(delay)
                 yield r
             emit('recv_end')
 
